@@ -146,6 +146,8 @@ class World(object):
         if st.kind == "scalar":
             if st.strict:
                 return ("scalar", name, str(rnd.randint(0, 99)))
+            if getattr(st, "vanishing", False) and rnd.random() < 0.15:
+                return S.VANISH
             return rnd.choice(["free", 12, 1.5, True, ["nested", 1], {"k": [1, 2]}])
         if st.kind == "enum":
             return rnd.choice(st.values).value
@@ -171,6 +173,8 @@ def serialize_leaf(s, name, v):
     if st.kind == "scalar":
         if st.strict:
             return "%s:%s" % (name, v[2])
+        if getattr(st, "vanishing", False) and v == S.VANISH:
+            return None
         return v
     if st.kind == "enum":
         for ev in st.values:
